@@ -101,6 +101,8 @@ struct Gen {
     bool batching_mode = false;   // C09: this program configures batch time-outs (internal timers next to the user's) and therefore uses no one-shot source:
                                   // a one-shot source leaves its set when its event is received, which with batching is not when it is handed over
     bool thorough = false;
+    bool churn_mode = false;      // C02: handlers register/deregister modules often (a walk over the modules that such a call interrupts has to be resumed
+                                  // as often as it takes), more modules, a broadcast right before the quit
     std::string camp;
 
     long rmod() { return (long)r.below(std::max(1, nmods + 1)); }
@@ -122,6 +124,7 @@ struct Gen {
             int n = in_cb ? 9 : 9;
             const char *nm = names[r.below(n)];
             if (!strcmp(nm, "dereg") && r.chance(0.5)) nm = "stop";
+            if (churn_mode && in_cb && r.chance(0.3)) nm = "dereg";
             // avoid(known finding: task thread vs module stop/pause): programs that use task sources outside C04 do not
             // stop/pause/deregister modules
             if (tasks_in_program && camp != "C04" && strcmp(nm, "start") && strcmp(nm, "resume")) nm = "start";
@@ -312,13 +315,14 @@ Program gen_core(const std::string &campaign, uint64_t seed, bool thorough) {
     g.tasks_in_program = (campaign == "C04" ? r.chance(0.6) : r.chance(0.3)) && (g.pf.src_kinds & 32);   // (only where task sources can be generated at all)
     if (campaign == "C09" && r.chance(0.3)) { g.batching_mode = true; g.tasks_in_program = false; }
     if (campaign == "C02" && r.chance(0.4)) g.batching_mode = true;
+    if (campaign == "C02" && r.chance(0.15)) { g.churn_mode = true; g.pf.w_script[REG] = 16; g.pf.max_mods = 7; }
     g.full_bursts = thorough ? r.chance(0.6) : r.chance(0.25);
     p.set("tasks", g.tasks_in_program ? 1 : 0);
     bool dispatch_mode = r.chance(0.4);
     p.set("mode", dispatch_mode ? "dispatch" : "blocking");
 
     p.add("D", "ctx_reg", {campaign == "C07" || campaign == "C04" || campaign == "C20" ? (long)r.below(8) : (long)r.below(2)});
-    int nm = (int)r.range(1, thorough ? g.pf.max_mods + 1 : g.pf.max_mods);
+    int nm = (int)r.range(g.churn_mode ? 3 : 1, thorough ? g.pf.max_mods + 1 : g.pf.max_mods);
     for (int i = 0; i < nm; i++) g.gen_op("D", REG, false);
     // setup phase
     int nsetup = (int)r.range(0, thorough ? 14 : 8);
@@ -345,6 +349,7 @@ Program gen_core(const std::string &campaign, uint64_t seed, bool thorough) {
                 for (int i = 0; i < nd; i++) driver_op();
                 if (r.chance(0.15)) p.add("D", "advance", {(long)r.below(20000)});
             }
+            if (g.churn_mode && r.chance(0.7)) p.add("D", "bcast", {g.rmod(), 0});
             if (r.chance(0.5)) { p.add("D", "ctx_quit", {(long)r.below(6)}); p.add("D", "dispatch", {2, 1}); }
         }
         int nbetween = (int)r.below(4);
@@ -375,6 +380,7 @@ Program gen_core(const std::string &campaign, uint64_t seed, bool thorough) {
     if (!dispatch_mode && !quit_somewhere && r.chance(0.7)) {
         char where[48];
         snprintf(where, sizeof where, "m%d.evt.%d", (int)r.below(std::max(1, nm)), (int)r.below(3));
+        if (g.churn_mode && r.chance(0.7)) p.add(where, "bcast", {g.rmod(), 0});
         p.add(where, "ctx_quit", {(long)r.below(6)});
     }
     return p;
